@@ -2200,6 +2200,11 @@ class TagNode(_ElementWrappingNode, NodeBase):
                         f"The namespace prefix `{prefix}` is unknown in the "
                         "evaluation context."
                     )
+            for prefix, local_name, _ in step._derived_attributes:
+                # must not fail after preceding steps' nodes were created
+                TagAttributes._validate_name(
+                    namespaces[prefix] if prefix else "", local_name
+                )
 
         for i, step in enumerate(ast.location_paths[0].location_steps):
             candidates = tuple(step.evaluate(node_set=(node,), namespaces=namespaces))
